@@ -32,11 +32,18 @@ def scripts(rng, tier):
     for k in range(n):
         ssrc = rng.randrange(2, 1 << 32)
         p = rand_policy(rng, ssrc=ssrc, valid=True)
-        L = [p.line(1), "create 1 1", "create 2 1"]
+        # a third of the scripts use wildcard policies on both sides: the streams that do the work are clones of
+        # the template (srtp_stream_clone copies services, keys, MKI setting, window size), several SSRCs
+        wild = rng.random() < 0.35
+        ssrcs = [ssrc, ssrc ^ 0x55, ssrc ^ 0x1000] if wild else [ssrc]
+        if wild:
+            L = [p.line(1, ssrc_type=SSRC_ANY_OUT), p.line(2, ssrc_type=SSRC_ANY_IN), "create 1 1", "create 2 2"]
+        else:
+            L = [p.line(1), "create 1 1", "create 2 1"]
         seq = rng.choice([0, 1, 65533, 30000])
         for i in range(8 if tier == "quick" else 30):
             big = tier != "quick" and rng.random() < 0.05
-            pkt = rand_rtp(rng, ssrc, seq & 0xffff, ids=list(p.enc_xtn) or None, big=big)
+            pkt = rand_rtp(rng, rng.choice(ssrcs), seq & 0xffff, ids=list(p.enc_xtn) or None, big=big)
             seq += rng.choice([1, 1, 2, 5])
             mi = rng.randrange(len(p.keys)) if p.use_mki else 0
             L.append(pkt_op("protect", 1, pkt, cap=len(pkt) + p.trailer(), mode=rng.choice([0, 1, 2]), mki_index=mi)); a = len(L)
